@@ -4,6 +4,7 @@ import (
 	"bytes"
 	"fmt"
 	"net"
+	"sort"
 	"strings"
 
 	"github.com/insomniacslk/dhcp/dhcpv4"
@@ -66,6 +67,46 @@ func diffPkt4(p, q *dhcpv4.DHCPv4) string {
 }
 
 // oracle c01: FromBytes(ToBytes(p)) == p on the encodable domain.
+// flatPkt4 returns a packet equal to p whose hardware address, addresses and
+// option values are consecutive views of ONE array, each with the capacity that
+// runs to the end of the array (a caller that keeps a record per client and hands
+// out sub-slices).  An encoder that appends to one of its inputs writes into the
+// fields behind it (seeded change C01-9).
+func flatPkt4(p *dhcpv4.DHCPv4) *dhcpv4.DHCPv4 {
+	q := *p
+	n := len(p.ClientHWAddr) + 64
+	keys := make([]int, 0, len(p.Options))
+	for k, v := range p.Options {
+		n += len(v)
+		keys = append(keys, int(k))
+	}
+	sort.Ints(keys)
+	rec := make([]byte, 0, n+64)
+	view := func(b []byte) []byte {
+		at := len(rec)
+		rec = append(rec, b...)
+		return rec[at:len(rec)] // capacity runs to the end of rec
+	}
+	q.ClientHWAddr = net.HardwareAddr(view(p.ClientHWAddr))
+	ip := func(a net.IP) net.IP {
+		if a == nil {
+			return nil
+		}
+		return net.IP(view(a))
+	}
+	q.ClientIPAddr, q.YourIPAddr, q.ServerIPAddr, q.GatewayIPAddr = ip(p.ClientIPAddr), ip(p.YourIPAddr), ip(p.ServerIPAddr), ip(p.GatewayIPAddr)
+	q.Options = dhcpv4.Options{}
+	for _, k := range keys {
+		v := p.Options[uint8(k)]
+		if v == nil {
+			q.Options[uint8(k)] = nil
+		} else {
+			q.Options[uint8(k)] = view(v)
+		}
+	}
+	return &q
+}
+
 func oracleC01(r *Rng, n int, thorough bool, seeds []string) *OracleResult {
 	res := &OracleResult{Tags: map[string]int{}}
 	seen := map[uint64]struct{}{}
@@ -117,6 +158,17 @@ func oracleC01(r *Rng, n int, thorough bool, seeds []string) *OracleResult {
 			}
 			if d := diffPkt4(p, q); d != "" {
 				what = "the decoded packet changed when the bytes it was decoded from were overwritten: " + d
+				return
+			}
+			// the same packet with its fields laid out as views of one record
+			f := flatPkt4(p)
+			fb := f.ToBytes()
+			if d := diffPkt4(p, f); d != "" {
+				what = "encoding a packet whose fields are views of one array changed the packet: " + d
+				return
+			}
+			if !bytes.Equal(fb, p.ToBytes()) {
+				what = "a packet whose fields are views of one array encodes differently from an equal packet with private fields"
 			}
 		}()
 		if what != "" {
